@@ -815,6 +815,8 @@ func C05() *kit.Spec {
 				return
 			}
 			c.Count("control.ok."+tr.Sender, 1)
+			c.Distinct("symbol_shapes(symbology,version|size,level,sender)", kit.Hash64([]byte(fmt.Sprintf("%s %d %d %d %d %s", tr.Sym, tr.V, tr.Level, tr.Rows, tr.Cols, tr.Sender))))
+			c.Distinct("qr_masks_used", uint64(s.mask+1)*uint64(len(tr.Sym)))
 			if tr.Sweep {
 				var cnt int64
 				f := s.sweep(r, probe, &cnt)
